@@ -194,6 +194,14 @@ def body_volume(case, ctx):
     ctx.event(cls_tag(ch, reflecting))
 
 
+@st.composite
+def energy_cases(draw):
+    cfg = draw(cases())
+    # 1 in 3: no gradient supplied - the trajectory is driven by the internally estimated gradient (relative accuracy ~1e-5)
+    cfg["hmc"]["grad"] = draw(st.sampled_from([True, True, False]))
+    return cfg
+
+
 def envelope(ch, t0, r0, eps, n):
     old = ch.ES.epsilon
     ch.ES.epsilon = eps
@@ -228,7 +236,8 @@ def body_energy(case, ctx):
         raise Inconclusive("energy not finite")
     if e1 > 0.05:
         raise Inconclusive("not in the asymptotic regime after 4 halvings")
-    floor = 1e-11 * (abs(H0) + 1.0)
+    floor = (1e-11 if case["hmc"]["grad"] else 3e-4) * (abs(H0) + 1.0)
+    ctx.event("gradient=" + ("supplied" if case["hmc"]["grad"] else "estimated-internally"))
     if e4 < floor or e1 < 100 * floor:
         ctx.event("envelope-below-floor")
         return
@@ -340,7 +349,8 @@ def body_finite_diff(case, ctx):
         t[i] = v
     with np.errstate(all="ignore"):
         g = np.asarray(ch.finite_diff(t.copy()), dtype=float)
-    want = tgt.grad(t) / case["T"]
+    # the gradient of the log-density itself: the integrators multiply whatever gradient function they are given by 1/T
+    want = tgt.grad(t)
     # natural size of the gradient for the dynamics: the largest component, plus the change of each component over one
     # leapfrog position update (curvature x eps*sqrt(inverse mass)); an error small against that cannot matter to a trajectory
     im = ch.mass.inv_mass
@@ -349,7 +359,7 @@ def body_finite_diff(case, ctx):
     for i in range(case["d"]):
         e = np.zeros(case["d"])
         e[i] = 1e-6 * step[i]
-        curv[i] = abs((tgt.grad(t + e)[i] - tgt.grad(t - e)[i]) / (2e-6 * step[i])) / case["T"]
+        curv[i] = abs((tgt.grad(t + e)[i] - tgt.grad(t - e)[i]) / (2e-6 * step[i]))
     # ... and the size of the gradient one conditional width (1/sqrt(curvature)) away from a stationary point
     scale = np.max(np.abs(want)) + np.maximum(curv * step, np.sqrt(curv))
     err = np.abs(g - want)
@@ -368,7 +378,7 @@ SUBCHECKS = [
         rule=">= 1 wall reflection, or matrix mass, or T != 1"),
     Sub("volume", lambda t: cases(), body_volume, quick=300, thorough=8000, shards_quick=12, shards_thorough=16, weight=4,
         rule=">= 1 wall reflection, or matrix mass, or T != 1"),
-    Sub("energy", lambda t: cases(), body_energy, quick=600, thorough=20000, shards_quick=12, shards_thorough=16, weight=3,
+    Sub("energy", lambda t: energy_cases(), body_energy, quick=600, thorough=20000, shards_quick=12, shards_thorough=16, weight=3,
         rule=">= 1 wall reflection, or matrix mass, or T != 1"),
     Sub("kinetic", lambda t: cases(), body_kinetic, quick=60, thorough=1200, shards_quick=12, shards_thorough=16, weight=40,
         rule="matrix mass or T != 1"),
